@@ -20,7 +20,8 @@ CORES = int(os.environ.get("VERIF_JOBS", "16"))
 
 
 def load_known():
-    path = os.path.join(common.VERIF_ROOT, "known_findings.json")
+    # (VERIF_KNOWN_FINDINGS is only for investigating a recorded finding with the entry removed; registered commands never set it)
+    path = os.environ.get("VERIF_KNOWN_FINDINGS", os.path.join(common.VERIF_ROOT, "known_findings.json"))
     if not os.path.exists(path):
         return []
     with open(path) as f:
